@@ -120,6 +120,7 @@ type image struct {
 	OpIndex int // index of the in-flight operation; boundary images: the operation just completed
 	Bound   bool
 	Dir     string
+	Derived string                     // non-empty: a torn state derived from the image taken at Point (what was removed)
 	Live    map[string]recfs.MountInfo // backend mount table at the crash instant (mountpoints under the history root)
 	Async   bool
 }
@@ -175,7 +176,12 @@ func histChild(r *vf.Run) {
 		if !strings.HasPrefix(name, "snap.") {
 			return
 		}
-		h.capture(name, false, h.d.Cur)
+		im := h.capture(name, false, h.d.Cur)
+		if im != nil && len(args) >= 2 {
+			if a1, ok := args[1].(string); ok {
+				h.derive(im, name, a1)
+			}
+		}
 	})
 	g := &snapdrv.Gen{Rng: rng, P: snapdrv.Profile{Names: rng.Range(3, 6), Reopen: true, RestoreFails: true, CrashHistory: true}}
 	length := rng.Range(6, 16)
@@ -244,26 +250,96 @@ func firstWords(s string) string {
 }
 
 // capture copies metadata.db and snapshots/ of the history root.
-func (h *hist) capture(point string, boundary bool, op int) {
+func (h *hist) capture(point string, boundary bool, op int) *image {
 	if op < 0 {
-		return // a hook outside any generated operation
+		return nil // a hook outside any generated operation
 	}
 	n := len(h.images)
 	dir := filepath.Join(h.imgDir, strconv.Itoa(n))
 	if err := os.MkdirAll(dir, 0o755); err != nil {
-		return
+		return nil
 	}
 	if err := copyFile(filepath.Join(h.root, "metadata.db"), filepath.Join(dir, "metadata.db")); err != nil && !os.IsNotExist(err) {
 		h.r.Inconclusive("image copy failed")
-		return
+		return nil
 	}
 	if err := copyTree(filepath.Join(h.root, "snapshots"), filepath.Join(dir, "snapshots")); err != nil {
 		h.r.Inconclusive("image copy failed")
-		return
+		return nil
 	}
 	im := &image{N: n, Point: point, OpIndex: op, Bound: boundary, Dir: dir, Live: h.d.FS.Live(), Async: h.d.Async}
 	h.images = append(h.images, im)
 	h.r.Count("hit:"+point, 1)
+	return im
+}
+
+// derive adds the images a death INSIDE a directory operation leaves (torn states that
+// no hook can stop at), computed from the image just taken:
+//
+//   - at snap.cleanupdir.afterUnmount(dir): os.RemoveAll(dir) removes the children first and
+//     dir last, in no particular order -> dir without "fs", dir without "work", dir empty.
+//     (The images at snap.remove.beforeDirCleanup / snap.cleanup.beforeDirCleanup of the
+//     same dir are byte-identical to the afterUnmount one - the in-memory backend's Unmount
+//     does not touch the disk - so deriving from afterUnmount covers them.)
+//   - at snap.restore.beforeMount(name): restore made snapshots/<id> and then <id>/fs with
+//     two Mkdir calls (a graceful Close had removed <id>) -> <id> present, <id>/fs missing.
+func (h *hist) derive(base *image, point, arg string) {
+	type variant struct {
+		class, what string
+		remove      []string // paths below the image's snapshots/ directory
+	}
+	var vs []variant
+	switch point {
+	case "snap.cleanupdir.afterUnmount":
+		rel, ok := strings.CutPrefix(arg, filepath.Join(h.root, "snapshots")+"/")
+		if !ok || rel == "" || strings.Contains(rel, "/") {
+			return
+		}
+		es, err := os.ReadDir(filepath.Join(base.Dir, "snapshots", rel))
+		if err != nil || len(es) == 0 {
+			return
+		}
+		var all []string
+		for _, e := range es {
+			all = append(all, filepath.Join(rel, e.Name()))
+		}
+		if len(es) > 1 {
+			for _, e := range es {
+				vs = append(vs, variant{"torn-removeall", rel + " without " + e.Name(), []string{filepath.Join(rel, e.Name())}})
+			}
+		}
+		vs = append(vs, variant{"torn-removeall", rel + " empty", all})
+	case "snap.restore.beforeMount":
+		s := h.d.M.Snaps[arg]
+		if s == nil || s.ID == "" {
+			return
+		}
+		vs = append(vs, variant{"torn-mkdir", s.ID + " without fs", []string{filepath.Join(s.ID, "fs")}})
+	default:
+		return
+	}
+	for _, v := range vs {
+		n := len(h.images)
+		dir := filepath.Join(h.imgDir, strconv.Itoa(n))
+		if err := os.MkdirAll(dir, 0o755); err != nil {
+			return
+		}
+		if err := copyFile(filepath.Join(base.Dir, "metadata.db"), filepath.Join(dir, "metadata.db")); err != nil && !os.IsNotExist(err) {
+			return
+		}
+		if err := copyTree(filepath.Join(base.Dir, "snapshots"), filepath.Join(dir, "snapshots")); err != nil {
+			return
+		}
+		for _, p := range v.remove {
+			_ = os.RemoveAll(filepath.Join(dir, "snapshots", p))
+		}
+		im := *base
+		im.N, im.Dir = n, dir
+		im.Point = base.Point + "+" + v.class
+		im.Derived = v.what
+		h.images = append(h.images, &im)
+		h.r.Count("derived_images:"+base.Point+"+"+v.class, 1)
+	}
 }
 
 func copyFile(src, dst string) error {
@@ -421,7 +497,7 @@ func (h *hist) restart(im *image, mode string, failK int, bind bool) (nMounts in
 	desc := fmt.Sprintf("%s %s fail=%d bind=%v hist=%d image=%d inflight=%s", mode, im.Point, failK, bind, h.idx, im.N, inflight)
 	_ = os.WriteFile(filepath.Join(r.Scratch, "journal.txt"), []byte(desc+"\n"), 0o644)
 	replay := map[string]any{"history": h.idx, "script": snapdrv.Script(h.ops), "image": im.N, "crash_point": im.Point, "in_flight_op_index": im.OpIndex,
-		"in_flight_op": fmt.Sprint(op), "mode": mode, "fail_kth_mount": failK, "bind": bind, "async": im.Async}
+		"in_flight_op": fmt.Sprint(op), "derived_torn_state": im.Derived, "mode": mode, "fail_kth_mount": failK, "bind": bind, "async": im.Async}
 	violate := func(key, what string) { r.Violate(key+"@"+pointClass, fmt.Sprintf("[%s, crash at %s during %s] %s", mode, im.Point, inflight, what), replay) }
 
 	W := filepath.Join(h.work, "w", fmt.Sprintf("%d-%s-%d-%v", im.N, mode, failK, bind))
